@@ -3,6 +3,7 @@
    to the register machine of RelEdit.v, and the statement of the whole property.
    Definitions only. *)
 From V.model Require Import Base RelLex RelParse RelEdit.
+From V.model Require RelAcc.
 
 (* ------------------------------------------------------------------ the list model *)
 (* a field = entries of alternatives; an alternative is a [relrec] (RelEdit.v) *)
@@ -55,6 +56,19 @@ Definition astep (f : lfield) (o : aop) : lfield :=
   | ASetArchs i j a => l_on_relation i j (rr_set_archs a) f
   | AAddProfile i j g => l_on_relation i j (rr_add_profile g) f
   end.
+
+(* what the accessors return for a field whose version texts are as written in [f]: every version
+   goes through debversion (RelEdit.structure_d = field_display of RelEdit.structure, proofs/RelEditVersionP.v) *)
+Definition rr_display (r : relrec) : res relrec :=
+  match rr_ver r with
+  | Some (vc, v) =>
+      match RelAcc.debversion_roundtrip v with
+      | Ok v' => Ok (mk_relrec (rr_name r) (rr_qual r) (Some (vc, v')) (rr_archs r) (rr_profs r))
+      | _ => Panic 12
+      end
+  | None => Ok r
+  end.
+Definition field_display (f : lfield) : res lfield := mapM (mapM rr_display) f.
 
 (* the positions an operation names exist (insert beyond the end appends) *)
 Definition rel_in_range (f : lfield) (i j : nat) : bool :=
@@ -179,8 +193,18 @@ Definition reads_clean (s : str) : bool :=
   match parse_relaxed s true with Ok (_, O) => true | _ => false end.
 
 (* ------------------------------------------------------------------ the whole property *)
-(* Domain: the texts an operand is made of are non-empty runs of identifier characters
-   (package names, versions, qualifiers, architectures, profile names). *)
+(* Domain of BUILT operands (Relation::new, RelationBuilder, set_version, set_archqual,
+   set_architectures, add_profile): the texts an operand is made of are non-empty runs of
+   identifier characters [A-Za-z0-9.+~-] — package names, qualifiers, profile names, and also
+   VERSIONS and ARCHITECTURE names.  So a version with an epoch ("1:2.0") and a negated
+   architecture ("!armel") are OUTSIDE the theorems about built operands: the code writes such a
+   text as ONE IDENT token ("1:2.0", "!armel"), which is not a token the lexer produces (it gives
+   IDENT COLON IDENT, NOT IDENT), so the tree is not a live layout (RelLiveAll.lwf asks every
+   part's tokens to be lexer tokens; the text and what the accessors read are nevertheless right:
+   proofs/RelEditRefuteP.v built_epoch_version, built_negated_architecture, by evaluation; the
+   rel-edit stream covers them).  Operands obtained by PARSING have no such restriction
+   (model/RelLiveAllParsed.v).  An identifier text is a debversion::Version that prints as it is
+   written (proofs/RelEditVersionP.ident_version_operand). *)
 Definition ident_text (s : str) : bool :=
   match s with [] => false | _ => forallb is_ident_char s end.
 Definition wf_profile (p : profile) : bool :=
@@ -226,13 +250,110 @@ Definition aop_ok (o : aop) : bool :=
 (* the text between the entries' texts: what an edit may not touch except for separators *)
 Definition substvar_texts (t : rtree) : list str := map text (filter (node_is SUBSTVAR) (children t)).
 
+(* ------------------------------------------------------------------ separators *)
+(* "separators are never duplicated, left dangling or fused with a name": the SLOTS of a field.  The
+   commas among the root's children cut it into slots; a slot holds an entry, a substitution
+   variable, or nothing (an empty slot: a leading, trailing or doubled separator).  [field_shape]:
+   the root has only white space, commas, entries and substitution variables as children, and no
+   slot holds two items (an item next to a separator-less neighbour).  What an operation does to
+   the slots is part of the property ([sstep], [C11_full]): a new entry gets a slot of its own next
+   to the entry it is inserted before; appended, it FILLS the last slot when that is empty ("a, "
+   + z = "a, z") and gets a new one otherwise; a removed entry's slot goes, except that the last
+   slot of a field with no item before it stays, empty; nothing else changes — so no empty slot
+   is ever created by an insertion, and the count the oracle uses (commas beyond the items - 1
+   needed) never grows ([n_empty_slots], proofs/RelSepsP.sstep_never_more). *)
+Inductive fslot : Type := SEmpty | SEntry | SSubst.
+Inductive ckind : Type := KComma | KItem (k : fslot) | KOther.
+Definition ck (c : rtree) : ckind :=
+  if kind_is COMMA c then KComma
+  else if is_entry c then KItem SEntry
+  else if node_is SUBSTVAR c then KItem SSubst
+  else KOther.
+Fixpoint slots_from (cur : fslot) (cs : list rtree) : list fslot :=
+  match cs with
+  | [] => [cur]
+  | c :: r => match ck c with
+              | KComma => cur :: slots_from SEmpty r
+              | KItem k => slots_from k r
+              | KOther => slots_from cur r
+              end
+  end.
+Definition tree_slots (t : rtree) : list fslot := slots_from SEmpty (children t).
+Definition is_sempty (s : fslot) : bool := match s with SEmpty => true | _ => false end.
+Definition is_sentry (s : fslot) : bool := match s with SEntry => true | _ => false end.
+Fixpoint sep_from (cur : fslot) (cs : list rtree) : bool :=
+  match cs with
+  | [] => true
+  | c :: r => match ck c with
+              | KComma => sep_from SEmpty r
+              | KItem k => is_sempty cur && sep_from k r
+              | KOther => ws_elem c && sep_from cur r
+              end
+  end.
+Definition field_shape (t : rtree) : bool := sep_from SEmpty (children t).
+
+Definition s_push (s : list fslot) : list fslot :=
+  match rev s with
+  | SEmpty :: r => rev (SEntry :: r)
+  | _ => s ++ [SEntry]
+  end.
+Definition s_insert (i : nat) (s : list fslot) : list fslot :=
+  match nth_index is_sentry i s with
+  | Some p => firstn p s ++ SEntry :: skipn p s
+  | None => s_push s
+  end.
+Definition s_remove (i : nat) (s : list fslot) : list fslot :=
+  match nth_index is_sentry i s with
+  | Some p => if (S p =? length s) && forallb is_sempty (firstn p s)
+              then firstn p s ++ [SEmpty]
+              else firstn p s ++ skipn (S p) s
+  | None => s
+  end.
+(* [f] = the field before the operation (removing an entry's only alternative removes the entry);
+   only the number of alternatives of its entries matters *)
+Definition sstep {A : Type} (f : list (list A)) (s : list fslot) (o : aop) : list fslot :=
+  match o with
+  | APush _ => s_push s
+  | AInsert i _ => s_insert i s
+  | ARemoveEntry i => s_remove i s
+  | ARemoveRelation i _ =>
+      match nth_error f i with
+      | Some [_] => s_remove i s
+      | _ => s
+      end
+  | _ => s
+  end.
+Definition fs_step (fs : lfield * list fslot) (o : aop) : lfield * list fslot :=
+  (astep (fst fs) o, sstep (fst fs) (snd fs) o).
+Definition slots_after (ops : list aop) (f : lfield) (s : list fslot) : list fslot :=
+  snd (fold_left fs_step ops (f, s)).
+(* the oracle's count (vlib/props/c11.py empty_slots): commas beyond the (items - 1) needed *)
+Definition n_empty_slots (s : list fslot) : nat :=
+  (length s - 1) - (count_if (fun x => negb (is_sempty x)) s - 1).
+
 (* C11, in full: from the empty field or any field that parses without error (substitution
-   variables allowed), after every operation of every in-range history the machine has not
-   panicked, the root holds exactly the list model's field, its text parses again without
-   error to that same field, and the substitution variables kept their text.  [v] is the
-   variant of the code the statement is about.  Proved for [fixed] (the code as it is in /repo):
-   props/C11.v, C11_full_theorem. *)
+   variables allowed) and whose accessors do not panic, after every operation of every in-range
+   history the machine has not panicked, the root holds exactly the list model's field, the
+   slots of the field are the slot model's (separators), its text parses again without error to
+   that same field, and the substitution variables kept their text.  The field is read by the
+   accessors, version texts through debversion (RelEdit.structure_d): `structure_d t0 = Ok f0` is
+   the domain (no accessor panics: every operator is one of the five, every version text is a
+   debversion::Version).  [v] is the variant of the code the statement is about.  Proved for
+   [fixed] (the code as it is in /repo): props/C11.v, C11_full_theorem; refuted for the code
+   without the separator fixes C11-02 / C11-07: C11_full_needs_append_sep, _first_substvar. *)
 Definition C11_full (v : variant) : Prop :=
+  forall (s : str) (t0 : rtree) (f0 : lfield) (ops : list aop),
+    parse_relaxed s true = Ok (t0, 0) -> structure_d t0 = Ok f0 ->
+    hist_in_range f0 ops = true -> forallb wf_operands ops = true ->
+    exists st', run_ops v (compile_all ops) (start_state t0) = Ok st' /\
+    exists t', root_tree st' = Ok t' /\
+      structure_d t' = Ok (fold_left astep ops f0) /\
+      substvar_texts t' = substvar_texts t0 /\
+      field_shape t' = true /\ tree_slots t' = slots_after ops f0 (tree_slots t0) /\
+      exists t'', parse_relaxed (text t') true = Ok (t'', 0) /\
+                  structure_d t'' = Ok (fold_left astep ops f0).
+(* the same with the version texts as written (RelEdit.structure: no debversion) *)
+Definition C11_full_raw (v : variant) : Prop :=
   forall (s : str) (t0 : rtree) (f0 : lfield) (ops : list aop),
     parse_relaxed s true = Ok (t0, 0) -> structure t0 = Ok f0 ->
     hist_in_range f0 ops = true -> forallb wf_operands ops = true ->
@@ -240,5 +361,6 @@ Definition C11_full (v : variant) : Prop :=
     exists t', root_tree st' = Ok t' /\
       structure t' = Ok (fold_left astep ops f0) /\
       substvar_texts t' = substvar_texts t0 /\
+      field_shape t' = true /\ tree_slots t' = slots_after ops f0 (tree_slots t0) /\
       exists t'', parse_relaxed (text t') true = Ok (t'', 0) /\
                   structure t'' = Ok (fold_left astep ops f0).
